@@ -7,7 +7,7 @@ from .absint import TOP, Evaluator, Lin, Obj, SliceV, Sym, Unmodelled, xr_mappin
 from .affsel import FACTS, interpret
 from .geometry import reciprocal_side
 from .harness import da_attr_models
-from .xmodel import dimsym, make_da, make_grid
+from .xmodel import bind_by_position, dimsym, make_da, make_grid
 
 AX, AY, FACE = Sym("AX"), Sym("AY"), Sym("face")
 
@@ -107,8 +107,7 @@ def attr_models():
 
 
 def m_pad_basic(ev, args, kw, node):
-    b = dict(zip(["da", "grid", "padding_width", "padding", "fill_value"], args))
-    b.update(kw)
+    b = bind_by_position(ev, "padding:_pad_basic", ["da", "grid", "padding_width", "padding", "fill_value"], args, kw)
     ev.events.append(("pad_basic", b, node))
     d = b["da"]
     if not isinstance(d, Obj):
@@ -221,7 +220,14 @@ def face_parts(result: Obj):
     """The per-face arrays of the final result and the trailing (trim) effects."""
     if not (isinstance(result, Obj) and result.name == "CONCAT"):
         raise Unmodelled(f"result {result!r} is not a concatenation of faces")
-    return result.attrs["parts"], result.attrs["dim"], result.eff
+    parts = result.attrs["parts"]
+    # the final trim cuts along the padded (non-face) dimensions only, so it commutes with stacking the faces: faces that are
+    # each trimmed the same way and then stacked are read as stacked and then trimmed
+    if not result.eff and parts and all(isinstance(f, Obj) and f.name == "CONCAT" and f.eff for f in parts):
+        effs = [tuple((e[0], repr(e[1:])) for e in f.eff) for f in parts]
+        if all(e == effs[0] for e in effs) and all(e[0] == "isel" for e in parts[0].eff):
+            return [Obj(f.kind, f.name, (), f.attrs) for f in parts], result.attrs["dim"], parts[0].eff
+    return parts, result.attrs["dim"], result.eff
 
 
 def halo_pieces(face_obj: Obj):
